@@ -139,6 +139,32 @@ PLANS["C16"] = {
     "exhaustive": True,
 }
 
+# ---- impl -> spec: seeded drivers + TLC trace validation (spec/TraceFlat.tla) -------------------------
+VEC_T = ["V_u8_u8", "V_u8_u16", "V_u8_u32", "V_u32_u8", "V_u64_u32", "V_u128_u8", "V_bool_u8", "V_ss3_u16", "V_i32_u16", "V_lei32_leu16", "V_u16_beu32", "V_ss5_u16", "V_se1_u8",
+         "S_u8", "S_u16", "S_u32", "S_leu16", "US1", "US2", "US3", "US6", "US7", "US8", "US9", "US10"]
+FLEX_T = ["X_u8_u8", "X_u32_u8", "X_bool_u16", "X_vu8_u8", "X_vi32_u16", "X_s8_u16", "X_vu8le_le", "X_x_u8", "X_us2_u16", "X_ue1_u8", "US4", "UE8"]
+COMP_T = ["US1", "US2", "US3", "US4", "US5", "US6", "US7", "US8", "US9", "US10", "UE1", "UE2", "UE3", "UE4", "UE5", "UE6", "UE7", "UE8", "UE9", "UE10", "UE11", "UE12", "UE13", "UE14"]
+SIZED_T = ["bool", "arr_bool3", "SS1", "SS2", "SS3", "SS4", "SS5", "SS6", "SE1", "SE2", "SE3", "SE4", "SE5", "le_u16", "be_u32"]
+ALL_T = sorted(set(VEC_T + FLEX_T + COMP_T + SIZED_T))
+
+def trace(driver, types, nq, nt, steps=40):
+    return ({"type": "trace", "driver": driver, "types": types, "n": nq, "steps": steps},
+            {"type": "trace", "driver": driver, "types": types, "n": nt, "steps": 3 * steps})
+
+TRACE_NOTE = "; plus the implementation -> specification direction: a seeded driver (full byte range, longer buffers, random contents / histories) records one event per call and TLC accepts the trace iff every event is a step of the specification (spec/TraceFlat.tla)"
+for pid, (drv, types, nq, nt) in {
+    "C01": ("dec", ALL_T, 6000, 60000), "C02": ("dec", ALL_T, 6000, 60000), "C05": ("dec", ALL_T, 6000, 60000), "C06": ("dec", ALL_T, 6000, 60000),
+    "C03": ("emp", ALL_T, 6000, 60000), "C15": ("emp", ALL_T, 6000, 60000), "C20": ("emp", ALL_T, 4000, 40000),
+    "C11": ("ops", VEC_T, 6000, 60000), "C12": ("ops", FLEX_T, 6000, 60000), "C13": ("ops", VEC_T + FLEX_T, 6000, 60000),
+    "C14": ("ops", ALL_T[:0] + VEC_T + FLEX_T + COMP_T, 6000, 60000), "C18": ("ops", COMP_T, 6000, 60000),
+}.items():
+    q, t = trace(drv, types, nq, nt)
+    PLANS[pid]["quick"].append(q)
+    PLANS[pid]["thorough"].append(t)
+    PLANS[pid]["rule"] += TRACE_NOTE
+    PLANS[pid]["technique"] = TECH + "; TLC trace validation of recorded executions"
+    PLANS[pid]["must_exercise"].append("trace.%s.events" % drv)
+
 # ---- IO ------------------------------------------------------------------------------------------------
 IO_BASE = """CONSTANTS
   NV = 2
@@ -173,7 +199,7 @@ def io_recv_cfg(msg, nmsgs, chunk, faults, policy, record, arbitrary=False, rawl
     if live:
         txt += "PROPERTY Terminates\n"
     txt += "CHECK_DEADLOCK FALSE\n"
-    return {"type": "tlc-only" if not record else "tlc-replay", "module": "MCIoRecv", "cfg": name, "cfg_text": txt}
+    return {"type": "tlc-only" if not record else "tlc-replay", "module": "MCIoRecv", "cfg": name, "cfg_text": txt, "io_traces": record, "io_traces_limit": 300}
 
 def io_send_cfg(msg, nmsgs, chunk, faults, retry, record, live=False):
     name = "MCIoSend_%s_n%d_c%d_f%d_r%d%s.cfg" % (msg, nmsgs, chunk, faults, retry, "_live" if live else "")
